@@ -167,3 +167,8 @@ package xrespondent
 //@ func (*socket).SetOption
 //@   ensures (name == protocol.OptionReadQLen) && isnil(result) ==> evcount("closed") == 1
 //@   ensures !isnil(result) ==> evcount("closed") == 0
+// ---- generated Info contracts (tools/gen_info_contracts.py) ----
+//@ func (*socket).Info
+//@   ensures result.Self == 99 && result.Peer == 98 && result.SelfName == "respondent" && result.PeerName == "surveyor"
+//@
+// ---- end generated Info contracts ----
